@@ -123,8 +123,12 @@ func (c *verifContainer) SetCpusetCpus(v string) {
 	c.cpusCalls++
 }
 func (c *verifContainer) SetCpusetMems(v string) {
-	c.mems = v
 	c.memsCalls++
+	if v == "" {
+		// an empty cpuset.mems in an NRI adjustment/update means "leave as is"
+		return
+	}
+	c.mems = v
 }
 func (c *verifContainer) SetCPUShares(v int64) { c.shares, c.sharesSet = v, true }
 
@@ -141,6 +145,8 @@ func (c *verifCache) LookupContainer(id string) (cache.Container, bool) {
 	return ctr, true
 }
 func (c *verifCache) Save() error                             { return nil }
+func (c *verifCache) AddImplicitAffinities(map[string]cache.ImplicitAffinity) error { return nil }
+func (c *verifCache) DeleteImplicitAffinities(...string)                           {}
 func (c *verifCache) SetPolicyEntry(string, interface{})      {}
 func (c *verifCache) GetPolicyEntry(string, interface{}) bool { return false }
 func (c *verifCache) GetContainers() []cache.Container {
